@@ -102,6 +102,18 @@ func x2Configs(prop, tier string) []*X2Config {
 				res = append(res, c)
 			}
 		}
+		if prop != "C02" && prop != "C08" {
+			// every history up to a small depth, without merging states: a flag, cache or counter a change may add is state
+			// the key cannot see; without merging it cannot hide a history either
+			for _, pc := range []PipeCfg{{Conc: 1, QL: 1, Graph: graphOne}, {Conc: 1, QL: 1, Replace: true, Delay: dly, Graph: graphOne}, {Conc: 2, QL: -1, Graph: graphOne}} {
+				c := &X2Config{Name: prop + "/every-history/" + cfgName(pc), Cfgs: []PipeCfg{pc}, Depth: depth(7, 8), NoDedup: true, Sbad: prop != "C15", FailOK: prop != "C05", Cancel: true, Symmetry: false,
+					AdvSteps: []time.Duration{dly}, Drain: prop != "C05" && prop != "C15", Props: props(prop)}
+				if prop == "C01" {
+					c.Props = props("C01", "C02")
+				}
+				res = append(res, c)
+			}
+		}
 		if prop == "C01" || prop == "C03" || prop == "C05" || prop == "C06" {
 			// a reload that changes several aspects at once: append -> replace, concurrency 1 -> 2, delay added
 			a := PipeCfg{Conc: 1, QL: -1, Graph: graphOne}
